@@ -177,7 +177,7 @@ func evalC03(c c03Case) (f *Failure, nontrivial bool) {
 			actions = append(actions, action{e.AtMs, func() { go emit(e) }})
 		}
 		if c.CutAtMs >= 0 {
-			actions = append(actions, action{c.CutAtMs, func() { r.Net.Refuse = true; r.Net.CutAll() }})
+			actions = append(actions, action{c.CutAtMs, func() { r.Net.SetRefuse(true); r.Net.CutAll() }})
 		}
 		sort.SliceStable(actions, func(i, j int) bool { return actions[i].at < actions[j].at })
 		for _, a := range actions {
